@@ -1,6 +1,7 @@
 (* Run/C10.v — Sx codec around Model/Extract.v + Model/FsModel.v.
 
-   out  = ( dir name size mode optional old fault )
+   out  = ( dir name size mode optional old fault [ kind ] )      kind = mixed | zeros | ff : what the new bytes look
+          like (only the harness cares: the model's contents are symbolic)
           old   = () | ( size mode ) | ( size mode shape ) | dir | special    what is at the output path before the request
                   special = a character device (a private copy of the null device): written into, never replaced
                   shape = plain | hardlink | symlink | dir700   (hardlink / symlink: the old file has the other name links/<i>)
@@ -13,6 +14,8 @@
    leg live   : ( seed ( out ... ) ( ( poll|hold out_index reads ) ... ) ( thread number ... ) nchunks )
         ->  ( result torn holders_bad ( ( path class mode ) ... ) leftovers ( aliases_bad rewritten_in_place ) )
         the extracted scheduler runs the given schedule (then lets every thread finish)
+   leg request: ( seed ( out [ out ] ) )      foo.o and, with a second output, the optional foo.dwo
+        ->  ( obs obs' )   the observation (as for strace, result hit | error) for either order of the two outputs
    leg accept : ( seed ( out ... ) ( result canonical finals leftovers ( raw event ... ) ) )
         the third component is what the harness OBSERVED (strace of the real extract_objects);
         ->  ( accept trace_is_a_model_trace no_forbidden_call sizes_complete result_agrees final_state_agrees
@@ -59,7 +62,7 @@ Record spec := mkSpec {
 
 Definition dec_spec (x : sx) : spec :=
   match x with
-  | SL [d; n; sz; m; opt; old; flt] =>
+  | SL (d :: n :: sz :: m :: opt :: old :: flt :: _) =>
       mkSpec (get_B d, get_B n) (get_N sz) (get_N m) (get_bool opt)
         (match old with
          | SL [a; b] => OldFile (get_N a) (get_N b)
@@ -204,6 +207,35 @@ Definition run_strace (x : sx) : sx :=
            finals f0 (fst s) objs specs;
            SN (leftovers (fst s) specs);
            aliases f0 (fst s) objs specs ]
+  | _ => err "bad case"
+  end.
+
+(* ---------- leg request ----------
+   Whole requests through get_cached_or_compile.  The hit arm of the caller is: read stdout/stderr from the entry (no
+   file-system effect), then extract_objects — NOTHING else touches the output paths, so the sccache process's own
+   calls are again [trace (prog objs)].  The compiler of the case fails whenever it is asked to compile, so after a
+   DecompressionFailure (hit turned into a miss) the fallback compile changes nothing and the request ends in an
+   error.  The order in which the outputs are restored is the iteration order of a HashMap in the real code: the
+   model gives the observation for every order. *)
+
+Definition enc_request_result (r : result) : sx :=
+  match r with ROk => sym "hit" | _ => sym "error" end.
+
+Definition request_obs (specs : list spec) (f0 : fs) (objs : list obj) : sx :=
+  let s := seq_run (prog objs) (f0, init_local) in
+  SL [ enc_request_result (result_of objs (snd s));
+       SL (canon (trace (prog objs) (f0, init_local)) 0);
+       finals f0 (fst s) objs specs;
+       SN (leftovers (fst s) specs);
+       aliases f0 (fst s) objs specs ].
+
+Definition run_request (x : sx) : sx :=
+  match x with
+  | SL (_ :: SL outs :: _) =>
+      let specs := map dec_spec outs in
+      let f0 := fs0_of specs in
+      let objs := map (obj_of 1) (number 0 specs) in
+      SL [request_obs specs f0 objs; request_obs specs f0 (rev objs)]
   | _ => err "bad case"
   end.
 
@@ -396,4 +428,5 @@ Definition dispatch (leg : list N) (x : sx) : sx :=
   if bytes_eqb leg (bs "strace") then run_strace x
   else if bytes_eqb leg (bs "live") then run_live x
   else if bytes_eqb leg (bs "accept") then run_accept x
+  else if bytes_eqb leg (bs "request") then run_request x
   else err "unknown leg".
